@@ -1,12 +1,12 @@
 #!/bin/bash
 # tool/seed_keep.sh C05 A : keep a confirmed seeded change as /verif/seeded/C05-A/
 id=$1; v=$2
-sd=/tmp/seed/$id/_seed/$v; dst=/verif/seeded/$id-$v
+sd=${SEED_DIR:-/tmp/seed}/$id/_seed/$v; dst=/verif/seeded/$id-${SEED_TAG}$v
 mkdir -p $dst
 cp $sd/patch.diff $dst/patch.diff
 for f in demo.cpp build.sh out_with.txt out_without.txt; do [ -f $sd/$f ] && cp $sd/$f $dst/; done
 for f in $sd/*.h $sd/*.hpp $sd/CMakeLists.txt $sd/*.pro; do [ -f "$f" ] && cp "$f" $dst/; done
-sed -i "s#/tmp/seed/$id/_seed/$v#\$(dirname \"\$(readlink -f \"\$0\")\")#g; s#=/tmp/seed/$id\b#=\${QXMPP_TREE:-/tmp/seed/$id}#g" $dst/build.sh 2>/dev/null
+sed -i "s#${SEED_DIR:-/tmp/seed}/$id/_seed/$v#\$(dirname \"\$(readlink -f \"\$0\")\")#g; s#=${SEED_DIR:-/tmp/seed}/$id\b#=\${QXMPP_TREE:-/tmp/seed/$id}#g" $dst/build.sh 2>/dev/null
 python3 - "$sd" "$dst" "$id" "$v" <<'P'
 import json, sys, os
 sd, dst, pid, v = sys.argv[1:5]
